@@ -340,7 +340,9 @@ fn build(origin: Origin) -> Unimock {
                     // the matcher of ordered position 1 is running: let the other thread make the
                     // call for position 2, then panic
                     RACE_ENTERED.store(true, SeqCst);
-                    while !RACE_GO.load(SeqCst) {
+                    // (bounded: a tree on which the other thread never gets that far must not hang)
+                    let deadline = std::time::Instant::now() + std::time::Duration::from_secs(10);
+                    while !RACE_GO.load(SeqCst) && std::time::Instant::now() < deadline {
                         std::thread::yield_now();
                     }
                     panic!("INJECTED: ordered matcher")
@@ -400,7 +402,8 @@ fn act(u: &Unimock, origin: Origin, met: bool) -> u32 {
             let c = u.clone();
             std::thread::scope(|s| {
                 s.spawn(move || {
-                    while !RACE_ENTERED.load(SeqCst) {
+                    let deadline = std::time::Instant::now() + std::time::Duration::from_secs(10);
+                    while !RACE_ENTERED.load(SeqCst) && std::time::Instant::now() < deadline {
                         std::thread::yield_now();
                     }
                     let r = std::panic::catch_unwind(std::panic::AssertUnwindSafe(|| c.o1(0)));
@@ -673,12 +676,50 @@ struct CellResult {
 fn run_cell(origin: Origin, topo: Topo, met: bool) -> CellResult {
     use std::os::unix::process::ExitStatusExt;
     let exe = std::env::current_exe().unwrap();
-    let out = Command::new(exe)
+    // every cell has a wall cap: a child that does not finish is killed (and judged as having died
+    // by that signal) instead of stalling the table
+    let mut child = Command::new(exe)
         .arg("--cell")
         .arg(format!("{origin:?}/{topo:?}/{met}"))
         .env("RUST_BACKTRACE", "0")
-        .output()
+        .stdout(std::process::Stdio::piped())
+        .stderr(std::process::Stdio::piped())
+        .spawn()
         .unwrap_or_else(|e| machinery(&format!("cannot spawn child: {e}")));
+    let mut so = child.stdout.take().unwrap();
+    let mut se = child.stderr.take().unwrap();
+    let t_out = std::thread::spawn(move || {
+        let mut b = Vec::new();
+        let _ = std::io::Read::read_to_end(&mut so, &mut b);
+        b
+    });
+    let t_err = std::thread::spawn(move || {
+        let mut b = Vec::new();
+        let _ = std::io::Read::read_to_end(&mut se, &mut b);
+        b
+    });
+    let deadline = std::time::Instant::now() + std::time::Duration::from_secs(120);
+    let status = loop {
+        match child.try_wait() {
+            Ok(Some(st)) => break st,
+            Ok(None) if std::time::Instant::now() > deadline => {
+                let _ = child.kill();
+                break child.wait().unwrap_or_else(|e| machinery(&format!("cannot reap child: {e}")));
+            }
+            Ok(None) => std::thread::sleep(std::time::Duration::from_millis(10)),
+            Err(e) => machinery(&format!("cannot wait for child: {e}")),
+        }
+    };
+    struct Out {
+        status: std::process::ExitStatus,
+        stdout: Vec<u8>,
+        stderr: Vec<u8>,
+    }
+    let out = Out {
+        status,
+        stdout: t_out.join().unwrap_or_default(),
+        stderr: t_err.join().unwrap_or_default(),
+    };
     let stderr = String::from_utf8_lossy(&out.stderr).to_string();
     // a report = the header line plus the message lines up to the next header / note
     let mut reports: Vec<String> = vec![];
